@@ -25,6 +25,7 @@ type Violation struct {
 	Rule  string
 	What  string
 	Trace []string
+	Probe bool // found by the per-state probe (StateCheck) rather than by a transition monitor
 }
 
 // Explorer is a breadth-first explicit-state search; a state is the event path reaching it and a
@@ -39,6 +40,9 @@ type Explorer struct {
 	MaxStates int
 	Workers   int
 	Stop      func() bool // soft deadline
+	// StateCheck, if set, is run once on every newly discovered state (it may destroy the world);
+	// it receives the monitors in their state at that point.
+	StateCheck func(w *World, mons []Monitor) (rule, what string)
 	// ExtraEnabled further restricts the alphabet in a state (nil => none).
 	ExtraEnabled func(w *World, e *Event) bool
 
@@ -239,8 +243,23 @@ func (x *Explorer) Run() error {
 							continue // do not expand beyond a violating transition
 						}
 						k := x.key(w2, mons)
+						isNew := add(k)
+						if isNew && x.StateCheck != nil {
+							if r, wh := x.StateCheck(w2, mons); r != "" {
+								violMu.Lock()
+								if !violSeen[r] {
+									violSeen[r] = true
+									tr := []string{}
+									for _, o := range w2.Log() {
+										tr = append(tr, o.String())
+									}
+									x.Violations = append(x.Violations, Violation{Cfg: x.Cfg, Path: x.names(p), Rule: r, What: wh, Trace: tr, Probe: true})
+								}
+								violMu.Unlock()
+							}
+						}
 						w2.Close()
-						if add(k) {
+						if isNew {
 							lstates++
 							local = append(local, node{p})
 						}
@@ -271,13 +290,13 @@ func (x *Explorer) Run() error {
 	return nil
 }
 
-// ReplayNames re-executes a path given by event names on a fresh world (explorer-free driver).
-func ReplayNames(cfg Config, prefix []*Event, alphabet []*Event, mons []Monitor, names []string) (rule, what string, trace []string, err error) {
-	w, err := NewWorld(cfg)
+// ReplayNamesWorld re-executes a path given by event names on a fresh world (explorer-free driver)
+// and returns the world for further probing; the caller closes it.
+func ReplayNamesWorld(cfg Config, prefix []*Event, alphabet []*Event, mons []Monitor, names []string) (rule, what string, trace []string, w *World, err error) {
+	w, err = NewWorld(cfg)
 	if err != nil {
-		return "", "", nil, err
+		return "", "", nil, nil, err
 	}
-	defer w.Close()
 	byName := map[string]*Event{}
 	for _, e := range alphabet {
 		byName[e.Name] = e
@@ -288,7 +307,8 @@ func ReplayNames(cfg Config, prefix []*Event, alphabet []*Event, mons []Monitor,
 	for _, n := range names {
 		e := byName[n]
 		if e == nil {
-			return "", "", nil, fmt.Errorf("unknown event %q", n)
+			w.Close()
+			return "", "", nil, nil, fmt.Errorf("unknown event %q", n)
 		}
 		obs := w.Apply(e)
 		for _, m := range mons {
